@@ -1021,8 +1021,29 @@ EXT2 = {
                 rule=(" edges: cases are 1-10 loads (and possibly a base) of such configurations; non-trivial = some offered configuration combined an invalidating edge value with a second edge "
                       "value (invalidating, or valid on its own) and some load of the case was applied")),
     "C18": dict(level_text=(" Further: the query kind of every Subscribe (Stream, Poll, Once, Unknown, invalid queries). Part real: the real client/gnmi transport against an in-process gRPC server: "
-                            "set-ups that fail after a successful dial, traps that cancel or Close between dial, RPC start and first Send, repeated Subscribe/Close on one object."),
-                level_note="; in part real a call that does not return within 30 s of real time is inconclusive, never a violation"),
+                            "set-ups that fail after a successful dial, traps that cancel or Close between dial, RPC start and first Send, repeated Subscribe/Close on one object."
+                            " Added (seeds M, N): (1) every exported entry point of the client is a step of parts lifetime and entry (harness/clientprop/entry.go lists them): Poll and Impl()/Synced()/Leaves() are "
+                            "issued on goroutines of their own at generated instants relative to Subscribe and Close - before any Subscribe, on STREAM and POLL queries, while a reconnecting Subscribe is in its "
+                            "backoff or connecting again, while a stopped Subscribe unwinds, after Close, after the context ended - over transports whose calls BLOCK as a gRPC stream write does when the peer has "
+                            "stopped reading: Impl.Poll accepted / failing / accepted after 1 unit - RetryMaxDelay+1 / blocked until the transport is closed or its context ends / until it is closed only; "
+                            "Impl.Subscribe taking 1-4 units or parked until its context ends. Part entry aims at this (POLL query, streams that end after their data like a POLL round, stalling poll writes, "
+                            "steps mostly Poll/Impl around the backoff). Nothing is demanded of Poll or Impl beyond ErrClientInit before the first Subscribe: the unchanged clauses are judged with those calls in "
+                            "flight - Subscribe and Close keep their bound (a Poll blocked inside the transport must not keep Close from returning once Close has closed the transport), an unclosed client "
+                            "resubscribes after every ended attempt, callback discipline. A goroutine of the client left waiting for a mutex while every other goroutine of the case is blocked (a lock held across "
+                            "a blocking call) is class lock-deadlock: decided structurally from the goroutine dump (no goroutine running or runnable, at least one on a lock, two identical looks), the bubble is "
+                            "abandoned so that rapid can shrink the case. (2) The SHAPE of the context of every Subscribe call of parts random, lifetime and entry: cancel function / own deadline / deadline "
+                            "of the parent of a WithCancel child / deadline under WithValue / deadline that is never reached plus cancel function / value plus cancel function / WithTimeout child of a parent "
+                            "that is cancelled; deadlines pass in virtual time before Subscribe, during the initial or a later connect, inside Impl.Subscribe, before the first message, while streaming, in a "
+                            "backoff, after Subscribe returned; a cancel step may come before the deadline. The end of the context by deadline is judged exactly like a call of the cancel function (the "
+                            "harness classifies the situation 1 ns before the deadline, an instant nothing else of the case occupies); Close afterwards must return too."),
+                technique="; Poll / Impl / Synced / Leaves as steps of the schedule over transports whose poll and subscription writes block; generated shapes of the caller's context (deadlines in virtual time); lock-deadlock verdict from the goroutine dump",
+                rule=" entry: cases as lifetime (profile entry); non-trivial = the client was closed, or resubscribed, while a poll request was blocked inside the transport",
+                level_note=("; in part real a call that does not return within 30 s of real time is inconclusive, never a violation"
+                            "; not generated: two Poll calls at once on a POLL query and Poll while an attempt reads the stream (Poll reads the stream itself; neither is documented as allowed - such steps are "
+                            "skipped and labelled), poll rounds that deliver data, an Impl.Close that takes virtual time (BaseClient calls it under its mutex: any contender would wait for that mutex and a "
+                            "synctest clock cannot advance then), Impl.Subscribe that blocks under a plain client (nothing can interrupt it there); the error value Subscribe returns when its context ended is not judged; "
+                            "the look at the goroutine dump is triggered after 1.5 s of real time without the case finishing - the trigger is not the verdict, a slow case has a runnable goroutine and is left alone; "
+                            "context shapes are not varied in part real (every hang there is inconclusive by construction)")),
     "C19": dict(level_text=" Further: every conversion is run twice on the same arguments before the concurrent phase (sequential determinism), which also catches conversions that modify their inputs."),
     "C20": dict(level_text=(" Part edges: initial timestamps at the edges of the int64 range and at 31/32/62/63-bit distances, in every listing order. All parts: configurations dressed with the fields the "
                             "target ignores and with the generator oneof (empty random{} block, mirrored seed/values); the Client's output equals queue.New's, a second Client on a deep-equal Config agrees.")),
